@@ -17,7 +17,7 @@ from concurrent.futures import ThreadPoolExecutor
 from pathlib import Path
 
 from harness.common import ROCQ, Ck, _split_evals, _unlimit_stack, coq_list, coq_str, parse_coq_N_list
-from translate import c18_guard, c18_ops
+from translate import c18_census, c18_guard, c18_ops
 
 MANIFEST = dict(
     technique='Rocq proof (POSIX join/normpath/abspath on character lists; soundness of every segment-wise guard form by '
@@ -25,7 +25,9 @@ MANIFEST = dict(
               'handles; os.walk as a Section variable; memo tables and whole histories over several objects by induction) + '
               'two fail-closed ast translators (guard by path conditions, operations by abstract interpretation with helper '
               'inlining; wrapper and shared-state censuses) + exhaustive vm_compute correspondence + operations-model and '
-              'history-model correspondences against audit-hook observations + audit-hook oracle incl. histories',
+              'history-model correspondences against audit-hook observations + audit-hook oracle incl. histories; round 4: one '
+              'statement of the whole property (c18_property) over a record of all generated objects, package-wide censuses '
+              '(third translator), entry-point and route correspondences, symbolic links modelled (lexical vs real)',
     text='Theorems in Props/C18.v: for every guard expression accepted by the recogniser raise_sound (abs == root, '
          'startswith(root + sep) in four spellings, commonpath == root, closed under and/or/not), every working directory '
          '(also a different one at call time), root argument and path string, a path that RawFileSystem._resolve_path does '
@@ -61,7 +63,24 @@ MANIFEST = dict(
          'constructor). The history model is compared with the accesses observed step by step on two objects sharing a '
          'folder. Real temporary trees (with literal backslash file names inside the root) are searched with every '
          'open/stat/scandir observed, through strings, File handles, chains and after an unconstrained object on the '
-         'same folder has performed the same operations.',
+         'same folder has performed the same operations. '
+         'Round 4: c18_property states the whole property once: for every record of generated objects passing source_ok '
+         '(sound guard; every OS call of RawFileSystem validated and none in File / FileSystem / FileSystemChain; constructor '
+         'facts; entry points and chain calls land on access methods; every census empty) and every history of steps — a '
+         'step is a call by user code reaching, through any route of entry points (fs[x], x in fs, read_kv1, read_prop, '
+         'iteration, File.open_bin/open_str/cache_key) and chain calls with any prefixes (chains inside chains), any OS call '
+         'site of any RawFileSystem object on arbitrary strings — with a memo table under any entry-dropping policy whose '
+         'key covers the steps, or with no table: the table is invisible, every path a constrained object hands to the OS is '
+         'inside its root, and so is everything a folder walk started there lists and finds under the os.walk contract; '
+         'hypotheses satisfiable (example with a chain inside a chain) and each load-bearing one needed (refuted without). '
+         'A third translator reads every module below src/srctools: monkey patches of the classes or of the path library, '
+         'subclasses of RawFileSystem redefining methods, origin of the decorators taken as neutral, cached functions of '
+         'other modules reached from the classes, containers / outside state kept on the objects, constructor signature, '
+         'RawFileSystem(...) calls that switch the constraint off, mixins / metaclasses, stores into constrain_path, and '
+         'the table of entry points (compared with observed accesses, as are routes through nested chains). Symbolic '
+         'links: containment is lexical (abspath); a component-wise realpath model proves that lexical containment is real '
+         'containment when no entry below the root on the way is a link, and refutes it with a link inside the root. '
+         'Drive-letter / UNC / NUL / non-existing-component inputs are computed instances and part of the search.',
     note='Trusted: Coq kernel + vm_compute, translate/c18_guard.py and translate/c18_ops.py, the hand model SM/PathNorm.v of '
          'CPython posixpath (tied by the exhaustive correspondence, POSIX only; Windows path semantics not covered) and the '
          'evaluation of path expressions SM/PathOps.v (tied by the operations correspondence), Adler-32 as the block '
@@ -73,12 +92,15 @@ MANIFEST = dict(
          'FileSystemChain member while staying inside the RawFileSystem root is counted, not reported (the property speaks '
          'about the root directory). unify_path("..") == ".." is an observation, carved out of the theorem. '
          'constrain_path=False and assignments to fs.path / fs.constrain_path from outside the class are exempt. '
-         'The censuses are syntactic over filesys.py: state smuggled in through an object passed to the constructor, '
-         'through another module, or a table kept per object (harmless while the flag of an object is fixed) is not seen; '
-         'the history search on the implementation is the backstop.',
+         'The censuses are syntactic (filesys.py in depth, every other module of the package for patches, subclasses, '
+         'constructions, flag stores): code outside the package, dynamically computed attribute names and C extensions are '
+         'not seen; the history search on the implementation (which imports the package modules naming the classes and '
+         'shares constructor extras between objects) is the backstop. Symbolic links inside the root pointing out are '
+         'followed (lexical reading, observed and counted, not reported). The census booleans in source_ok state that the '
+         'model applies (no table, no wrapper); the proof of c18_property uses guard_ok and calls_ok.',
 )
 
-IMPORTS = ['SV.SM.PathNorm', 'SV.SM.PathNormEnum', 'SV.SM.PathOps', 'SV.SM.PathWalkRel', 'SV.SM.PathMemo', 'SV.SM.PathHistory', 'SV.Gen.Containment_gen', 'SV.Gen.FsOps_gen', 'SV.Props.C18', 'Coq.NArith.NArith',
+IMPORTS = ['SV.SM.PathNorm', 'SV.SM.PathNormEnum', 'SV.SM.PathOps', 'SV.SM.PathWalkRel', 'SV.SM.PathMemo', 'SV.SM.PathHistory', 'SV.SM.PathProperty', 'SV.Gen.Containment_gen', 'SV.Gen.FsOps_gen', 'SV.Gen.FsCensus_gen', 'SV.Props.C18', 'Coq.NArith.NArith',
            'Coq.Lists.List']
 PRE = 'Import ListNotations.\n'
 CWD = '/w/cwd'
@@ -131,6 +153,8 @@ def impl_resolve(fs, p: str) -> str:
         return getattr(fs, RESOLVE_METHOD[0])(p)
     except RootEscapeError:
         return '!'
+    except Exception as e:          # a fault may make it fail in another way: a result the model will not agree with
+        return '?' + type(e).__name__
 
 
 def impl_unify(p: str) -> str:
@@ -139,6 +163,8 @@ def impl_unify(p: str) -> str:
         return '=' + unify_path(p)
     except ValueError:
         return '!'
+    except Exception as e:
+        return '?' + type(e).__name__
 
 
 def path_shape(p: str) -> str:
@@ -193,8 +219,14 @@ def functions():
     return fns
 
 
-def coq_run(ck: Ck, tag: str, exprs: list[str], timeout: int = 900, preamble: str = '') -> list[str] | None:
-    """Like ck.coq_eval, but safe to call from several threads (own directory per call)."""
+class Inconclusive(RuntimeError):
+    """The machine was too slow for a stage of the check: nothing is claimed (INTERNAL-ERROR), in particular no violation."""
+
+
+def coq_run(ck: Ck, tag: str, exprs: list[str], timeout: int = 1500, preamble: str = '') -> list[str] | None:
+    """Like ck.coq_eval, but safe to call from several threads (own directory per call).  A coqc process that does not finish
+    within `timeout` (far above what any block takes on a loaded machine: seconds in the quick tier, a minute or two in the
+    thorough one) makes the whole check inconclusive instead of failing an obligation."""
     d = Path(tempfile.mkdtemp(prefix=f'coq_{tag}_', dir=ck.scratch))
     body = ''.join(f'Require Import {i}.\n' for i in IMPORTS) + PRE
     body += 'Set Printing Width 1000000.\nSet Printing Depth 1000000.\n'
@@ -209,7 +241,7 @@ def coq_run(ck: Ck, tag: str, exprs: list[str], timeout: int = 900, preamble: st
                            preexec_fn=_unlimit_stack)
     except subprocess.TimeoutExpired:
         ck.notes.append(f'coqc timeout in {tag}')
-        return None
+        raise Inconclusive(f'coqc did not finish block {tag} within {timeout} s (machine too slow / too busy): inconclusive') from None
     if r.returncode != 0:
         ck.notes.append(f'coq_run {tag} failed: {(r.stdout + r.stderr)[-1200:]}')
         return None
@@ -450,12 +482,26 @@ ROOT_CONFIGS = [
     ('unnormalised', '{BASE}/t/other/../root'),
     ('pathlib', 'Path:{BASE}/t/root'),
     ('nested', '{BASE}/t/root/sub'),           # sibling t/root/sub_evil extends its name
+    # round 4: file systems made by the package's own factories (entry points that construct a RawFileSystem)
+    ('factory-get_filesystem', 'Factory:get_filesystem:{BASE}/t/root'),
+    ('factory-get_inst_locs', 'Factory:get_inst_locs:{BASE}/t/root/map.vmf'),
+    # ... and a file system the caller made and then handed to a consumer inside the package (PackList keeps the chain)
+    ('factory-then-PackList', 'Consumer:PackList:{BASE}/t/root'),
 ]
 CHAIN_PREFIXES = [None, '', 'sub', 'sub/']
+# round 4: a chain inside a chain (outer prefix, inner prefix) around the constrained member; and an UNconstrained member on
+# another folder ({BASE}/t/root_evil/sub, consulted first) next to the constrained one
+NESTED_CHAINS = [('nest', 'sub', ''), ('nest', '', 'sub'), ('nest', 'x/..', 'sub'), ('mixed', '', ''), ('mixed', '..', 'sub')]
+LOOSE_MEMBER = '/t/root_evil/sub'      # folder of the unconstrained member of a mixed chain (deep enough that the relative spellings stay in the tree)
+THIN_LABELS = ['abs-trailing-sep', 'relative-trailing-sep', 'unnormalised', 'pathlib', 'relative']
+PLAIN_CONFIGS = 7           # the first seven root configurations are drawn by the random part (keeps the random stream of round 3)
 ESCAPE_KEYS = ('escape-', 'handle-escape-', 'history-escape-')
 # after_loose comes before handle_loose: both let an unconstrained system resolve the name, the history op wants to be first
 OPS = ['contains', 'getitem', 'open_bin', 'open_str', 'walk', 'after_loose', 'handle_loose', 'handle_made']
 SUB_OPS = ['contains', 'getitem', 'open_bin', 'open_str', 'walk']
+HIST_SUB_OPS = SUB_OPS + ['read_kv1']       # what the history operation performs on both file systems
+# round 4: the inherited entry points (FileSystem.read_kv1 / read_prop / __iter__), run by the targeted part only
+ENTRY_OPS = ['read_kv1']
 SEGS = ['..', '..', '.', '', 'in.txt', 'a', 'sub', 'deep.txt', 'root', 'root_evil', 'secret.txt', 't', 'rootx', 'root.bak',
         'sub_evil', 'x.txt', 'x', 'above.txt', 'top.txt', 'other', 'roo', 'nested.txt', 'elsewhere', 'data.txt',
         'Root', 'ROOT', ' ..', '.. ', '%2e%2e', '\uff0e\uff0e']
@@ -508,16 +554,125 @@ def build_tree(base: Path) -> None:
     for rel in sorted(TREE):
         p = base / rel
         p.parent.mkdir(parents=True, exist_ok=True)
-        p.write_text(f'CONTENT-OF:{rel}\n')
+        p.write_text(f'"CONTENT-OF:{rel}" "1"\n')      # a one-line keyvalues file naming itself (read_kv1 can parse it)
+
+
+SHARED_CTOR_STATE: dict = {}
+
+
+def _ctor_extras() -> dict:
+    """Constructor parameters of RawFileSystem beyond (path, constrain_path): whatever can be handed in from outside is
+    handed in SHARED between every object the search makes (one dict per parameter), as a caller wanting a cache would."""
+    from srctools.filesys import RawFileSystem
+    return {name: SHARED_CTOR_STATE.setdefault(name, {}) for name in _extra_params(RawFileSystem.__init__)}
+
+
+@functools.lru_cache(maxsize=8)
+def _extra_params(init) -> tuple:
+    import inspect
+    try:
+        params = list(inspect.signature(init).parameters.values())[1:]
+    except (TypeError, ValueError):
+        return ()
+    return tuple(prm.name for prm in params if prm.name not in ('path', 'constrain_path')
+                 and prm.kind not in (prm.VAR_POSITIONAL, prm.VAR_KEYWORD))
+
+
+def new_raw(path, constrain: bool = True):
+    from srctools.filesys import RawFileSystem
+    extras = _ctor_extras()
+    if extras:
+        try:
+            return RawFileSystem(path, constrain_path=constrain, **extras)
+        except TypeError:
+            pass
+    return RawFileSystem(path, constrain_path=constrain)
+
+
+def content_paths(base: str, d: str) -> list[str]:
+    """Which files of the tree a piece of returned data (file text, parsed key names, an error message) came from."""
+    import re
+    return [os.path.join(base, m.group(1).strip()) for m in re.finditer(r'CONTENT-OF:([^"\n]*)', d)]
 
 
 def make_fs(base: str, root_spec: str, chain_prefix, constrain: bool = True):
+    """(file system under test, its constrained RawFileSystem member)."""
     from srctools.filesys import FileSystemChain, RawFileSystem
     spec = root_spec.replace('{BASE}', base)
-    raw = RawFileSystem(Path(spec[5:]) if spec.startswith('Path:') else spec, constrain_path=constrain)
+    if spec.startswith('Consumer:'):
+        raw = new_raw(spec.split(':', 2)[2], constrain)
+        if constrain:
+            try:
+                from srctools.packlist import PackList
+                PackList(FileSystemChain(raw))
+            except Exception:          # whatever the consumer does with it: the object is what is examined afterwards
+                pass
+    elif spec.startswith('Factory:') and constrain:
+        _, how, arg = spec.split(':', 2)
+        if how == 'get_filesystem':
+            from srctools.filesys import get_filesystem
+            raw = get_filesystem(arg)
+        else:
+            from srctools.instancing import get_inst_locs
+            made = get_inst_locs(Path(arg))
+            raw = made.systems[0][0]
+            if chain_prefix is None:
+                return made, raw
+    else:
+        if spec.startswith('Factory:'):
+            spec = os.path.dirname(spec.split(':', 2)[2]) if spec.split(':', 2)[1] == 'get_inst_locs' else spec.split(':', 2)[2]
+        raw = new_raw(Path(spec[5:]) if spec.startswith('Path:') else spec, constrain)
     if chain_prefix is None:
         return raw, raw
+    if isinstance(chain_prefix, tuple) and chain_prefix[0] == 'nest':
+        return FileSystemChain((FileSystemChain((raw, chain_prefix[2])), chain_prefix[1])), raw
+    if isinstance(chain_prefix, tuple) and chain_prefix[0] == 'mixed':
+        return FileSystemChain((new_raw(base + LOOSE_MEMBER, False), chain_prefix[1]), (raw, chain_prefix[2])), raw
     return FileSystemChain((raw, chain_prefix)), raw
+
+
+def chain_rel(chain_prefix, path: str) -> str:
+    """The name a member receives for `path` (a chain joins its prefix first and then turns the slashes)."""
+    if chain_prefix is None:
+        return path.replace('\\', '/')
+    if isinstance(chain_prefix, tuple):
+        outer = os.path.join(chain_prefix[1], path).replace('\\', '/')
+        return os.path.join(chain_prefix[2], outer).replace('\\', '/') if chain_prefix[0] == 'nest' else \
+            os.path.join(chain_prefix[2], path).replace('\\', '/')
+    return os.path.join(chain_prefix, path).replace('\\', '/')
+
+
+HANGS: list = []        # paths on which the implementation did not come back
+MAX_HANGS = 12          # after that many the search stops: the failing inputs are in hand, every further one costs seconds
+
+
+class _Hang(BaseException):
+    """An operation on the implementation did not come back in time."""
+
+
+@contextlib.contextmanager
+def time_limit(seconds: float):
+    """Alarm around one call into the implementation (main thread only): a fault that makes it loop is a failing input,
+    not a hung check.  The limit is far above (> 100x) what an operation takes on a loaded machine."""
+    import signal
+    if threading.current_thread() is not threading.main_thread():
+        yield
+        return
+    if not _alarm_installed:
+        signal.signal(signal.SIGALRM, _on_alarm)
+        _alarm_installed.append(True)
+    signal.setitimer(signal.ITIMER_REAL, seconds)
+    try:
+        yield
+    finally:
+        signal.setitimer(signal.ITIMER_REAL, 0)
+
+
+_alarm_installed: list = []
+
+
+def _on_alarm(signum, frame):
+    raise _Hang()
 
 
 @functools.lru_cache(maxsize=1 << 16)       # the tree does not change while it is searched
@@ -525,7 +680,7 @@ def _real(p: str) -> str:
     """os.path.realpath; a broken filesystem may have wandered into /proc, where entries vanish while being resolved."""
     try:
         return os.path.realpath(p)
-    except OSError:
+    except (OSError, ValueError):       # ValueError: embedded null byte
         return os.path.normpath(os.path.abspath(p))
 
 
@@ -556,17 +711,29 @@ def _sub_op(fs, sub: str, path: str, data: list, walk_limit: int, answers: list 
         if answers is not None:
             answers.append('getitem')
         with f.open_bin() as fh:
-            data.append(fh.read().decode())
+            data.append(fh.read(4096).decode(errors='replace'))
         f.cache_key()
         return 'file'
     if sub == 'open_bin':
         with fs.open_bin(path) as fh:
-            data.append(fh.read().decode())
+            data.append(fh.read(4096).decode(errors='replace'))
         return 'data'
     if sub == 'open_str':
         with fs.open_str(path) as fh2:
-            data.append(fh2.read())
+            data.append(fh2.read(4096))
         return 'data'
+    if sub == 'read_kv1':       # the inherited entry points FileSystem.read_kv1 / read_prop (deprecated spelling)
+        import warnings
+        from srctools.tokenizer import TokenSyntaxError
+        for how in ('read_kv1', 'read_prop'):
+            try:
+                with warnings.catch_warnings():
+                    warnings.simplefilter('ignore')
+                    kv = getattr(fs, how)(path)
+                data.append('\n'.join(k.real_name or '' for k in kv.iter_tree()))
+            except TokenSyntaxError as e:
+                data.append(str(e))
+        return 'keyvalues'
     n = 0
     for f in fs.walk_folder(path):      # lazily: an unconstrained walk of '../../..' must not list the whole disk
         n += 1
@@ -574,7 +741,7 @@ def _sub_op(fs, sub: str, path: str, data: list, walk_limit: int, answers: list 
             break
         try:                            # a yielded handle may itself be refused (literal backslash names); keep walking
             with f.open_bin() as fh:
-                data.append(fh.read().decode())
+                data.append(fh.read(4096).decode(errors='replace'))
         except ValueError:
             pass
     return f'{n} files'
@@ -587,7 +754,7 @@ def _ignored_prefixes() -> tuple:
     return tuple(x.rstrip('/') + '/' for x in {sys.prefix, sys.base_prefix, os.path.dirname(os.__file__), str(REPO), str(VERIF)})
 
 
-def run_op(base: str, root_spec: str, chain_prefix, op: str, path_t: str, cold: bool = True) -> dict:
+def run_op(base: str, root_spec: str, chain_prefix, op: str, path_t: str, cold: bool = True, entry_hist: bool = True) -> dict:
     """Run one operation on a fresh filesystem object; returns outcome, data and the observed accesses.
 
     handle_loose: a File produced by an UNconstrained RawFileSystem on the same folder (its lookup is not observed, it
@@ -599,18 +766,48 @@ def run_op(base: str, root_spec: str, chain_prefix, op: str, path_t: str, cold: 
     os.chdir(base)
     data: list[str] = []
     answers: list[str] = []     # positive answers of the constrained filesystem about this name: `in` said True, [] returned a File
+    hist_ops = HIST_SUB_OPS if entry_hist else SUB_OPS      # does the history operation include the inherited entry points?
+    handle = raw = unexpected = None
+    cold_escape = exempt_answers = False
+    exempt: set = set()
+    exempt_tops: list = []
+    # one alarm around the whole case (preparation included); an operation takes milliseconds.  After the first hang the
+    # limit drops (every further hanging case costs its full limit)
+    limit = time_limit(30 if not HANGS else 3)
+    limit.__enter__()
     try:
         fs, raw = make_fs(base, root_spec, chain_prefix)
         root = raw.path
         handle = None
         prep = None
         cold_escape = False
+        if isinstance(chain_prefix, tuple) and chain_prefix[0] == 'mixed':
+            # what the UNconstrained member of the chain touches on its own (it is exempt): the same operation on a chain
+            # that holds only such a member
+            from srctools.filesys import FileSystemChain
+            alone = FileSystemChain((new_raw(base + LOOSE_MEMBER, False), chain_prefix[1]))
+            ans_u: list = []
+            if op == 'walk' and not is_inside(base, os.path.normpath(os.path.join(
+                    base + LOOSE_MEMBER, os.path.join(chain_prefix[1], path).replace('\\', '/')))):
+                # the unconstrained member would walk folders outside the scratch tree (other people's files): not run
+                prep = 'skipped:the unconstrained member would walk out of the scratch tree'
+            with observe() as ev_u:
+                try:
+                    if op in SUB_OPS and prep is None:
+                        _sub_op(alone, op, path, [], 400, ans_u)
+                except Exception:
+                    pass
+            exempt = {_real(os.path.join(base, p)) for _, p in ev_u}
+            # ... and everything below a folder it walks: a walk that climbs out of the tree meets folders other processes
+            # are writing to (the scratch area), so two walks of it need not list the same files in the same order
+            exempt_tops = [_real(os.path.join(base, p)) for k_, p in ev_u if k_ == 'os.walk']
+            exempt_answers = bool(ans_u)
         if op == 'handle_loose' and chain_prefix is not None:
             prep = 'no-handle:chain'          # a chain would open the wrapped handle through the unconstrained system
         elif op == 'handle_loose':
             try:
                 handle = _handle_for(fs, raw, chain_prefix, RawFileSystem(raw.path, constrain_path=False)[path])
-            except (OSError, ValueError, UnicodeError) as e:
+            except Exception as e:
                 prep = 'no-handle:' + type(e).__name__
         elif op == 'handle_made':
             handle = _handle_for(fs, raw, chain_prefix, File(raw, path, path))
@@ -623,43 +820,65 @@ def run_op(base: str, root_spec: str, chain_prefix, op: str, path_t: str, cold: 
             if cold:
                 with observe() as ev0:
                     cold_data: list[str] = []
-                    for sub in SUB_OPS:
+                    for sub in hist_ops:
                         try:
                             _sub_op(fs, sub, path, cold_data, 60)
-                        except (OSError, ValueError, UnicodeError):
+                        except Exception:
                             pass
                 seen0 = [os.path.normpath(os.path.join(base, p)) for _, p in ev0] + \
-                    [os.path.join(base, d.strip()[len('CONTENT-OF:'):]) for d in cold_data if d.startswith('CONTENT-OF:')]
+                    [w for d in cold_data for w in content_paths(base, d)]
                 cold_escape = any(not is_inside(root, p) and not p.startswith(_ignored_prefixes()) for p in seen0)
                 fs, raw = make_fs(base, root_spec, chain_prefix)
             loose, _ = make_fs(base, root_spec, chain_prefix, constrain=False)
-            for sub in SUB_OPS:
+            for sub in hist_ops:
                 try:
                     _sub_op(loose, sub, path, [], 3)
-                except (OSError, ValueError, UnicodeError):
+                except Exception:
                     pass
         with observe() as ev:
             try:
                 if prep is not None:
                     out = prep
+                elif op == 'read_kv1':
+                    # inherited entry point: FileSystem.read_kv1 -> self.open_str -> Keyvalues.parse; also through a handle
+                    # and the deprecated read_prop spelling.  The files are not keyvalues: a parse error is expected and
+                    # its text is kept (an error message quoting the file would be a leak as well)
+                    import warnings
+                    from srctools.tokenizer import TokenSyntaxError
+                    done = []
+                    for how in ('read_kv1', 'read_prop'):
+                        try:
+                            with warnings.catch_warnings():
+                                warnings.simplefilter('ignore')
+                                kv = getattr(fs, how)(path)
+                            data.append('\n'.join(f'{k.real_name}' for k in kv.iter_tree()))
+                            done.append(how)
+                        except RootEscapeError:
+                            pass
+                        except TokenSyntaxError as e:
+                            data.append(str(e))
+                            done.append(how + ':parse-error')
+                        except (OSError, ValueError, UnicodeError) as e:
+                            done.append(how + ':' + type(e).__name__)
+                    out = 'ok:' + ','.join(done) if done else 'RootEscapeError'
                 elif op == 'contains':
                     out = 'ok:' + _sub_op(fs, 'contains', path, data, 0, answers)
                 elif op == 'getitem':
                     f = fs[path]
                     answers.append('getitem')
                     with f.open_bin() as fh:
-                        data.append(fh.read().decode())
+                        data.append(fh.read(4096).decode(errors='replace'))
                     with f.open_str() as fh2:
-                        data.append(fh2.read())
+                        data.append(fh2.read(4096))
                     f.cache_key()
                     out = 'ok:file'
                 elif op == 'open_bin':
                     with fs.open_bin(path) as fh:
-                        data.append(fh.read().decode())
+                        data.append(fh.read(4096).decode(errors='replace'))
                     out = 'ok:data'
                 elif op == 'open_str':
                     with fs.open_str(path) as fh2:
-                        data.append(fh2.read())
+                        data.append(fh2.read(4096))
                     out = 'ok:data'
                 elif op == 'walk':
                     n = rejected = 0
@@ -670,13 +889,13 @@ def run_op(base: str, root_spec: str, chain_prefix, op: str, path_t: str, cold: 
                         if n <= 60:
                             try:      # a yielded handle may itself be refused (literal backslash names); keep walking
                                 with f.open_bin() as fh:
-                                    data.append(fh.read().decode())
+                                    data.append(fh.read(4096).decode(errors='replace'))
                             except RootEscapeError:
                                 rejected += 1
                     out = f'ok:{n} files'
                 elif op == 'after_loose':
                     done = []
-                    for sub in SUB_OPS:
+                    for sub in hist_ops:
                         try:
                             done.append(sub + '=' + _sub_op(fs, sub, path, data, 60, answers))
                         except RootEscapeError:
@@ -694,16 +913,16 @@ def run_op(base: str, root_spec: str, chain_prefix, op: str, path_t: str, cold: 
                         try:
                             if how == 'fs.open_bin':
                                 with fs.open_bin(handle) as fh:
-                                    data.append(fh.read().decode())
+                                    data.append(fh.read(4096).decode(errors='replace'))
                             elif how == 'fs.open_str':
                                 with fs.open_str(handle) as fh2:
-                                    data.append(fh2.read())
+                                    data.append(fh2.read(4096))
                             elif how == 'File.open_bin':
                                 with handle.open_bin() as fh:
-                                    data.append(fh.read().decode())
+                                    data.append(fh.read(4096).decode(errors='replace'))
                             elif how == 'File.open_str':
                                 with handle.open_str() as fh2:
-                                    data.append(fh2.read())
+                                    data.append(fh2.read(4096))
                             elif how == 'fs._get_cache_key':
                                 fs._get_cache_key(handle)
                             else:
@@ -720,27 +939,50 @@ def run_op(base: str, root_spec: str, chain_prefix, op: str, path_t: str, cold: 
                 out = 'RootEscapeError'
             except (OSError, ValueError, UnicodeError) as e:
                 out = type(e).__name__
+            except _Hang:
+                out = 'hang'
+                unexpected = 'no answer within the time limit (30 s, 3 s after the first hang)'
+                HANGS.append(path_t)
+            except Exception as e:          # a fault may make the implementation fail in ways nobody catches: a failing input
+                out = 'unexpected:' + type(e).__name__
+                unexpected = f'{type(e).__name__}: {e}'[:200]
         events = [(k, os.path.normpath(os.path.join(base, p))) for k, p in ev]
+    except _Hang:                           # the alarm went off outside the observed block (preparation of the case)
+        out, unexpected, events = 'hang', 'no answer within the time limit while preparing the case', []
+        HANGS.append(path_t)
+        root = os.path.normpath(os.path.join(base, 't/root'))
+    except Exception as e:                  # constructing the file system / preparing the case failed in an unforeseen way
+        out, unexpected, events = 'unexpected:' + type(e).__name__, f'while preparing the case: {type(e).__name__}: {e}'[:200], []
+        root = os.path.normpath(os.path.join(base, 't/root'))
     finally:
+        limit.__exit__(None, None, None)
         os.chdir(old)
     ignore = _ignored_prefixes()
-    escapes = [(k, p) for k, p in events if not is_inside(root, p) and not p.startswith(ignore)]
-    leaked = [d.strip() for d in data if d.startswith('CONTENT-OF:')
-              and not is_inside(root, os.path.join(base, d.strip()[len('CONTENT-OF:'):]))]
+    def exempted(p: str) -> bool:
+        return _real(p) in exempt or any(is_inside(top, p) for top in exempt_tops)
+    escapes = [(k, p) for k, p in events if not is_inside(root, p) and not p.startswith(ignore) and not exempted(p)]
+    leaked = []
+    for d in data:
+        # contents name the file they are in ('CONTENT-OF:<path relative to BASE>'); an error message may quote them
+        for where in content_paths(base, d):
+            if not is_inside(root, where) and not exempted(where) \
+                    and not (exempt and is_inside(base + LOOSE_MEMBER, where)):
+                leaked.append('CONTENT-OF:' + os.path.relpath(where, base))
     # an existence test / lookup that answers (instead of raising) about a name that lexically leads out of the root has
     # told the caller something about the outside, even when a cache made the OS call unnecessary
     # (where the name leads: a chain joins its prefix first and then turns the slashes, so '\\in.txt' under prefix 'sub' is
     # 'sub//in.txt'; a RawFileSystem turns the slashes of the name and joins it to the root)
-    rel = path.replace('\\', '/') if chain_prefix is None else os.path.join(chain_prefix, path).replace('\\', '/')
+    rel = chain_rel(chain_prefix, path)
     target = os.path.normpath(os.path.join(root, rel))
-    answered_outside = [[a, target] for a in answers if not is_inside(root, target)]
+    answered_outside = [[a, target] for a in answers if not is_inside(root, target) and not exempt_answers]
     pre_escapes = 0
-    if chain_prefix:
+    if chain_prefix and isinstance(chain_prefix, str):
         sub = os.path.join(root, chain_prefix)
         pre_escapes = sum(1 for k, p in events if is_inside(root, p) and not is_inside(sub, p))
     return {'outcome': out, 'root': root, 'events': events, 'escapes': escapes, 'leaked': leaked, 'data': data[:3],
             'answered_outside': answered_outside,
-            'prefix_escapes': pre_escapes, 'handle_path': None if handle is None else handle.path, 'cold_escape': cold_escape}
+            'prefix_escapes': pre_escapes, 'handle_path': None if handle is None else handle.path, 'cold_escape': cold_escape,
+            'unexpected': unexpected, 'constrained_flag': bool(getattr(raw, 'constrain_path', False))}
 
 
 def classify(root: str, p: str) -> str:
@@ -769,7 +1011,7 @@ def targeted_paths(base: str, root_abs_t: str) -> list[str]:
 
 
 def search_trees(ck: Ck) -> None:
-    n_random = ck.budget(2500, 40000)
+    n_random = ck.budget(2000, 40000)
     base_dir = Path(tempfile.mkdtemp(prefix='tree_', dir=ck.scratch))
     base = os.path.realpath(base_dir)
     build_tree(Path(base))
@@ -780,9 +1022,11 @@ def search_trees(ck: Ck) -> None:
 
     plain_escaped: set = set()       # (root configuration, chain prefix, path) on which a plain operation escaped
 
-    def case(label, root_spec, cp, op, path_t, cold=True):
+    def case(label, root_spec, cp, op, path_t, cold=True, entry_hist=True):
+        if len(HANGS) >= MAX_HANGS:
+            return False
         t0 = time.perf_counter()
-        r = run_op(base, root_spec, cp, op, path_t, cold=cold)
+        r = run_op(base, root_spec, cp, op, path_t, cold=cold, entry_hist=entry_hist)
         if op == 'after_loose' and not cold:
             r['cold_escape'] = (label, cp, path_t) in plain_escaped
         op_seconds[op] = op_seconds.get(op, 0.0) + time.perf_counter() - t0
@@ -795,6 +1039,21 @@ def search_trees(ck: Ck) -> None:
         path = path_t.replace('{BASE}', base)
         if ('..' in path or path.startswith('/') or '\\' in path) and r['events'] or r['outcome'] == 'RootEscapeError':
             ck.seen((label, cp, op, path_t))
+        if r['unexpected'] is not None:
+            # the implementation failed in a way no caller is prepared for (or did not come back): a failing input of its own
+            kind = 'hang' if r['outcome'] == 'hang' else 'unexpected-exception'
+            ukey = f'{kind}-{op}-{r["outcome"].split(":")[-1]}'
+            if ukey not in found:
+                found[ukey] = {'root': root_spec, 'root_config': label, 'chain_prefix': cp, 'op': op, 'path': path_t,
+                               'file_handle_path': r['handle_path'], 'outcome': r['outcome'] + ' (' + r['unexpected'] + ')',
+                               'accessed_outside_root': [], 'data_returned': [], 'answered_about_outside': [],
+                               'how': 'checks.c18.replay: builds the tree TREE under a fresh {BASE} and runs the op', '_rank': (2, 0), '_n': 0}
+            found[ukey]['_n'] += 1
+        if label.startswith('factory-') and not r['constrained_flag'] and 'factory-makes-unconstrained-file-system' not in found:
+            found['factory-makes-unconstrained-file-system'] = {
+                'root': root_spec, 'root_config': label, 'chain_prefix': cp, 'op': op, 'path': path_t, 'file_handle_path': None,
+                'outcome': 'the RawFileSystem made by the package factory (or handed to a consumer in the package) has constrain_path=False', 'accessed_outside_root': [],
+                'data_returned': [], 'answered_about_outside': [], 'how': 'checks.c18.replay', '_rank': (2, 0), '_n': 1}
         if not r['escapes'] and not r['leaked'] and not r['answered_outside']:
             return False
         if op in SUB_OPS:
@@ -825,23 +1084,53 @@ def search_trees(ck: Ck) -> None:
                   # apply between the check and the use (strip, Unicode NFKC, URL unquoting, case folding, ~ / $VAR expansion)
                   ' ../above.txt', '../above.txt ', '\uff0e\uff0e/above.txt', '%2e%2e/above.txt', '..%2fabove.txt',
                   '../Root/in.txt', '../ROOT/sub/in.txt', '{BASE}/T/ROOT/../above.txt', '~/../above.txt', '$PWD/../above.txt',
-                  '..\u2215above.txt', 'sub/\u2025/above.txt']
+                  '..\u2215above.txt', 'sub/\u2025/above.txt',
+                  # round 4: path syntax of other systems (drive letters, UNC, device paths: ordinary characters here), NUL
+                  # bytes, '..' after components that do not exist, names and paths beyond NAME_MAX / PATH_MAX
+                  'C:\\..\\..\\above.txt', 'C:/../../above.txt', 'C:..\\above.txt', 'C:\\in.txt', 'c:/{BASE}/t/above.txt',
+                  '\\\\server\\share\\..\\..\\above.txt', '//server/share/../../{BASE}/t/above.txt', '\\\\?\\{BASE}\\t\\above.txt',
+                  '\\\\.\\..\\above.txt', '//{BASE}/t/above.txt', '///{BASE}/t/above.txt', 'file:///{BASE}/t/above.txt',
+                  'in.txt\x00/../../above.txt', '../above.txt\x00', '\x00/../above.txt', '..\x00/above.txt', 'in.txt\x00',
+                  'nope/../../above.txt', 'nope/nope/../../../above.txt', 'nope/../in.txt', 'in.txt/../../above.txt',
+                  'in.txt/../a', 'sub/deep.txt/../../../above.txt',
+                  'n' * 300 + '/../../above.txt', 'n' * 300 + '/../in.txt', 'x/' * 2500 + '../' * 2501 + 'above.txt',
+                  'x/' * 2500 + '../' * 2500 + 'in.txt', '../' * 3000 + '{BASE}/t/above.txt'.lstrip('/')]
+        n_corpus = len(corpus)
         tp = corpus + targeted_paths(base, root_abs_t)
-        for cp in CHAIN_PREFIXES:
+        factory = label.startswith('factory-')
+        for cp in CHAIN_PREFIXES + NESTED_CHAINS:
             if cp is not None and label not in ('abs', 'relative', 'nested'):
                 continue
+            if isinstance(cp, tuple) and label == 'relative':
+                continue
             for k, path_t in enumerate(tp):
-                ops = OPS if cp is None or label == 'abs' else ['getitem', 'walk', 'handle_made', 'after_loose']
-                for op in ops:
-                    # the history op costs ten operations: in the quick tier on the corpus and every second spelling; the
-                    # plain operations on the same name come first in `ops` and say whether an escape needs the history
-                    if op == 'after_loose' and not (ck.thorough or ck.tie_broken or k < len(corpus) or k % 2 == 0):
+                full = ck.thorough or bool(ck.tie_broken) or k < n_corpus
+                if isinstance(cp, tuple):
+                    if not (full or k % 6 == 1) or (not ck.thorough and not ck.tie_broken and cp in NESTED_CHAINS[1:4:2]):
                         continue
-                    case(label, root_spec, cp, op, path_t, cold=False)
+                    ops = ['contains', 'getitem', 'open_bin', 'walk'] + (['handle_made'] if cp[0] == 'nest' else [])
+                elif factory:
+                    if not (full or k % 6 == 2):
+                        continue
+                    ops = (OPS if label == 'factory-get_filesystem' else SUB_OPS) + ENTRY_OPS
+                else:
+                    # root spellings that differ from 'abs' only in how the same folder is written: every second targeted
+                    # spelling in the quick tier (the parity alternates between them, so each spelling meets two of the four)
+                    if label in THIN_LABELS and not (full or k % 2 == THIN_LABELS.index(label) % 2):
+                        continue
+                    ops = OPS if cp is None or label == 'abs' else ['getitem', 'walk', 'handle_made', 'after_loose']
+                    if cp is None and (full or k % 4 == 0):
+                        ops = ops + ENTRY_OPS
+                for op in ops:
+                    # the history op costs ten operations: in the quick tier on the corpus and every third spelling; the
+                    # plain operations on the same name come first in `ops` and say whether an escape needs the history
+                    if op == 'after_loose' and not (ck.thorough or ck.tie_broken or k < n_corpus or k % 3 == 0):
+                        continue
+                    case(label, root_spec, cp, op, path_t, cold=False, entry_hist=full)
     # 2. random segment paths
     rng = ck.rng
     for _ in range(n_random):
-        label, root_spec = rng.choice(ROOT_CONFIGS)
+        label, root_spec = rng.choice(ROOT_CONFIGS[:PLAIN_CONFIGS])
         cp = rng.choice(CHAIN_PREFIXES) if rng.random() < 0.3 else None
         k = rng.choice([1, 2, 3, 4, 5, 6])
         segs = [rng.choice(SEGS) for _ in range(k)]
@@ -850,7 +1139,7 @@ def search_trees(ck: Ck) -> None:
         path_t = pre + join_kind(kind, segs)
         op = rng.choice(OPS)
         ck.hist('tree_random_segments', k)
-        hit = case(label, root_spec, cp, op, path_t)
+        hit = case(label, root_spec, cp, op, path_t, entry_hist=ck.thorough or bool(ck.tie_broken))
         if hit and found[hit]['_n'] <= 4:
             # shrink (the first hits of every class only: on a broken tree thousands of random paths escape):
             # drop segments while the same class of escape remains
@@ -884,6 +1173,99 @@ def search_trees(ck: Ck) -> None:
     shutil.rmtree(base_dir, ignore_errors=True)
 
 
+def import_package_modules(ck: Ck) -> None:
+    """Import every module of the package that mentions the file-system classes (what an application using srctools has
+    loaded): a monkey patch applied from another module at import time is then in force during the search."""
+    import importlib
+    loaded, failed = [], []
+    for rel in ck.extra.get('translated', {}).get('FsCensus_gen', {}).get('modules_mentioning_the_classes', []):
+        name = 'srctools.' + rel[:-3].replace('/', '.')
+        if name.endswith('.__init__'):
+            name = name[:-9]
+        try:
+            with time_limit(60):
+                importlib.import_module(name)
+            loaded.append(name)
+        except _Hang:
+            failed.append(name + ': import did not finish')
+        except Exception as e:      # optional dependencies, scripts that want arguments ...
+            failed.append(f'{name}: {type(e).__name__}')
+    ck.extra['package_modules_imported_before_the_search'] = loaded
+    if failed:
+        ck.extra['package_modules_not_importable'] = failed
+
+
+def observe_symlinks(ck: Ck) -> None:
+    """The reading of C18 is lexical (os.path.abspath never consults the file system; Props/C18.v c18_symlink_*): what a
+    symbolic link INSIDE the root points to is content of the root.  Observed on a real tree, reported only if a path handed
+    to the OS is LEXICALLY outside the root: (1) a link inside the root to a folder / file outside is followed; (2) '..'
+    after a link is taken lexically; (3) a root reached through a link keeps the link's spelling, and the real spelling of
+    the same folder is refused; (4) os.walk does not descend into linked folders."""
+    from srctools.filesys import RootEscapeError
+    base_dir = Path(tempfile.mkdtemp(prefix='links_', dir=ck.scratch))
+    base = os.path.realpath(base_dir)
+    for rel in ('t/root/in.txt', 't/root/sub/deep.txt', 't/outside/secret.txt', 't/above.txt', 't/in.txt'):
+        q = Path(base) / rel
+        q.parent.mkdir(parents=True, exist_ok=True)
+        q.write_text(f'"CONTENT-OF:{rel}" "1"\n')
+    try:
+        os.symlink('../outside', base + '/t/root/link')
+        os.symlink('../above.txt', base + '/t/root/flink')
+        os.symlink('root', base + '/t/rootlink')
+        os.symlink(base + '/t/outside', base + '/t/root/sub/abslink')
+    except OSError as e:
+        ck.extra['symlink_observations'] = f'symbolic links cannot be created here: {e}'
+        shutil.rmtree(base_dir, ignore_errors=True)
+        return
+    obs: dict = {}
+    bad: list = []
+
+    def lexically_inside(root: str, p: str) -> bool:
+        r = [c for c in os.path.normpath(root).split('/') if c]
+        q = [c for c in os.path.normpath(p).split('/') if c]
+        return q[:len(r)] == r and '..' not in q
+
+    def ask(label: str, root: str, op: str, name: str):
+        fs = new_raw(root)
+        data: list = []
+        with observe() as ev:
+            try:
+                with time_limit(60):
+                    out = _sub_op(fs, op, name, data, 50)
+            except RootEscapeError:
+                out = 'RootEscapeError'
+            except _Hang:
+                out = 'hang'
+            except Exception as e:
+                out = type(e).__name__
+        handed = [os.path.normpath(os.path.join(os.getcwd(), p)) if not os.path.isabs(p) else p for _, p in ev]
+        for p in handed:
+            ck.count('symlink_tree_accesses')
+            if not lexically_inside(fs.path, p) and not p.startswith(_ignored_prefixes()):
+                bad.append({'root': root.replace(base, '{BASE}'), 'op': op, 'path': name, 'handed_to_os': p.replace(base, '{BASE}')})
+        srcs = sorted({w.replace(base + '/', '') for d in data for w in content_paths(base, d)})
+        obs[label] = {'outcome': out, 'content_from': srcs}
+        ck.seen(('symlink', label))
+        return out, srcs
+
+    root = base + '/t/root'
+    ask('folder link inside the root, pointing out: link/secret.txt', root, 'open_bin', 'link/secret.txt')
+    ask('file link inside the root, pointing out: flink', root, 'open_bin', 'flink')
+    ask('absolute folder link below the root: sub/abslink/secret.txt', root, 'getitem', 'sub\\abslink\\secret.txt')
+    ask('".." after a link is lexical: link/../in.txt', root, 'open_bin', 'link/../in.txt')
+    ask('".." out through a link: link/../../above.txt', root, 'open_bin', 'link/../../above.txt')
+    ask('walk of the root (os.walk does not descend into linked folders)', root, 'walk', '')
+    ask('walk of a linked folder', root, 'walk', 'link')
+    ask('root given through a link: in.txt', base + '/t/rootlink', 'open_bin', 'in.txt')
+    ask('root given through a link, real spelling of a file inside it', base + '/t/rootlink', 'open_bin', base + '/t/root/in.txt')
+    ask('root given through a link: ../root/in.txt', base + '/t/rootlink', 'open_bin', '../root/in.txt')
+    ck.extra['symlink_observations(lexical reading, not violations)'] = obs
+    for b in bad[:1]:
+        ck.violation('escape-lexical-through-link', f'{b["op"]}({b["path"]!r}) on RawFileSystem({b["root"]!r}) handed '
+                     f'{b["handed_to_os"]} to the OS: lexically outside the root', dict(b, how='checks.c18.observe_symlinks'))
+    shutil.rmtree(base_dir, ignore_errors=True)
+
+
 # ------------------------------------------------------------------------------------------------ ops model vs observed accesses
 OPS_CASES = [  # (label, method of RawFileSystem, branch)
     ('contains', '_file_exists', 'str'), ('lookup', '_get_file', 'str'), ('open_bin', 'open_bin', 'str'),
@@ -891,6 +1273,13 @@ OPS_CASES = [  # (label, method of RawFileSystem, branch)
     ('handle_open_str', 'open_str', 'File'), ('handle_cache_key', '_get_cache_key', 'File'),
 ]
 KCODE = {'open': 1, 'os.walk': 2, 'os.stat': 3, 'os.lstat': 3}
+# round 4: the inherited entry points and the methods of File: (label, name in Gen/FsCensus_gen.v entry_points, branch)
+ENTRY_CASES = [
+    ('e_getitem', '__getitem__', 'str'), ('e_contains', '__contains__', 'str'), ('e_read_kv1', 'read_kv1', 'str'),
+    ('e_read_kv1_handle', 'read_kv1', 'File'), ('e_read_prop', 'read_prop', 'str'), ('e_iter', '__iter__', 'str'),
+    ('e_file_open_bin', 'File.open_bin', 'File'), ('e_file_open_str', 'File.open_str', 'File'),
+    ('e_file_cache_key', 'File.cache_key', 'File'),
+]
 
 
 def _parse_option_list(v: str) -> list:
@@ -927,9 +1316,73 @@ def corr_ops(ck: Ck) -> None:
         label, m, b = rng.choice(OPS_CASES)
         mk = lambda: rng.choice(['', '/', base + '/t/']) + join_kind(rng.choice([0, 0, 1, 2]), [rng.choice(SEGS) for _ in range(rng.choice([1, 2, 3, 4]))])
         cases.append((label, m, b, mk(), mk(), mk()))
+    ecases = []
+    for label, m, b in ENTRY_CASES:
+        for p in pool:
+            ecases.append((label, m, b, p, rng.choice(pool), rng.choice(pool)))
+    for _ in range(ck.budget(60, 600)):
+        label, m, b = rng.choice(ENTRY_CASES)
+        mk2 = lambda: rng.choice(['', '/', base + '/t/']) + join_kind(rng.choice([0, 0, 1, 2]), [rng.choice(SEGS) for _ in range(rng.choice([1, 2, 3, 4]))])
+        ecases.append((label, m, b, mk2(), mk2(), mk2()))
+    # routes: user code indexing / walking a FileSystemChain, also a chain inside a chain, around the constrained member
+    from srctools.filesys import FileSystemChain
+    rprefixes = ['', 'sub', 'sub/', 'x/..', '..', 'sub\\..', '/', 'root_evil']
+    rcases = []
+    for k in range(ck.budget(150, 900)):
+        depth = 1 + k % 2
+        rcases.append((('getitem', 'walk')[(k // 2) % 2], [rng.choice(rprefixes) for _ in range(depth)],
+                       pool[k % len(pool)] if k < 4 * len(pool) else mk()))
+    robserved = []
+    eobserved = []
     observed = []
     old = os.getcwd()
     os.chdir(base)
+
+    def perform_route(op, prefixes, arg):
+        fs = RawFileSystem(root)
+        for pre_ in reversed(prefixes):          # prefixes[0] is the outermost chain
+            fs = FileSystemChain((fs, pre_))
+        with observe() as ev:
+            try:
+                if op == 'getitem':
+                    fs[arg]
+                else:
+                    for _f in fs.walk_folder(arg):
+                        break
+            except Exception:
+                pass
+        return sorted({(KCODE[k], p) for k, p in ev if k in KCODE})
+
+    def perform_entry(fs, label, arg, hpath, data):
+        """One call of an inherited entry point / a method of File; the (callee code, path) set the audit hook saw."""
+        import warnings
+        h = File(fs, hpath, data)
+        with observe() as ev:
+            try:
+                with warnings.catch_warnings():
+                    warnings.simplefilter('ignore')
+                    if label == 'e_getitem':
+                        fs[arg]
+                    elif label == 'e_contains':
+                        arg in fs
+                    elif label == 'e_read_kv1':
+                        fs.read_kv1(arg)
+                    elif label == 'e_read_kv1_handle':
+                        fs.read_kv1(h)
+                    elif label == 'e_read_prop':
+                        fs.read_prop(arg)
+                    elif label == 'e_iter':
+                        for _f in fs:
+                            break
+                    elif label == 'e_file_open_bin':
+                        h.open_bin().close()
+                    elif label == 'e_file_open_str':
+                        h.open_str().close()
+                    else:
+                        h.cache_key()
+            except Exception:       # RootEscapeError, OSError, parse errors of the non-keyvalues files ...
+                pass
+        return sorted({(KCODE[k], p) for k, p in ev if k in KCODE})
 
     def perform(fs, label, arg, hpath, data):
         """One operation on one object; the (callee code, path) set the audit hook saw."""
@@ -953,7 +1406,7 @@ def corr_ops(ck: Ck) -> None:
                     fs.open_str(h).close()
                 else:
                     fs._get_cache_key(h)
-            except (RootEscapeError, OSError, ValueError, UnicodeError):
+            except Exception:       # RootEscapeError, OSError, ValueError ...: what was handed to the OS before it is what counts
                 pass
         return sorted({(KCODE[k], p) for k, p in ev if k in KCODE})
 
@@ -979,6 +1432,18 @@ def corr_ops(ck: Ck) -> None:
             ck.hist('ops_model_case', f'{label}:{"access" if observed[-1] else "no-access"}')
             if observed[-1] and ('..' in arg + hpath + data or '\\' in arg + hpath + data):
                 ck.seen(('ops', label, arg, hpath, data))
+        for op_, prefixes, arg in rcases:
+            robserved.append(perform_route(op_, prefixes, arg))
+            ck.count('route_model_cases')
+            ck.hist('route_model_case', f'{op_}:depth{len(prefixes)}:{"access" if robserved[-1] else "no-access"}')
+            if robserved[-1] and ('..' in arg + ''.join(prefixes) or '\\' in arg):
+                ck.seen(('route', op_, tuple(prefixes), arg))
+        for label, m, b, arg, hpath, data in ecases:
+            eobserved.append(perform_entry(RawFileSystem(root), label, arg, hpath, data))
+            ck.count('entry_point_model_cases')
+            ck.hist('entry_point_model_case', f'{label}:{"access" if eobserved[-1] else "no-access"}')
+            if eobserved[-1] and ('..' in arg + hpath + data or '\\' in arg + hpath + data):
+                ck.seen(('entry', label, arg, hpath, data))
         for steps in histories:
             objs = {True: RawFileSystem(root), False: RawFileSystem(root, constrain_path=False)}
             hist_observed.append([perform(objs[con], label, arg, hpath, data) for con, label, m, b, arg, hpath, data in steps])
@@ -996,6 +1461,19 @@ def corr_ops(ck: Ck) -> None:
            'Definition predict (m b : string) (arg hpath data : str) : list (N * str) :=\n'
            '  map (fun x => (kcode (fst x), snd x)) (site_accesses raise_if o_cwd o_root '
            '{| i_arg := arg; i_data := data; i_hpath := hpath; i_prefix := []; i_walked := [] |} m b raw_sites).\n')
+    pre += ('Definition epredict (name b : string) (arg hpath data : str) : list (N * str) :=\n'
+            '  map (fun x => (kcode (fst x), snd x)) (entry_accesses 4 raise_if o_cwd o_root entry_points raw_sites name b '
+            '{| i_arg := arg; i_data := data; i_hpath := hpath; i_prefix := []; i_walked := [] |}).\n')
+    pre += ('Definition rstep (m : string) (hops : list hop) (arg : str) : list (N * str) :=\n'
+            '  flat_map (fun s => if (String.eqb (st_method s) m && String.eqb (st_branch s) "str")%bool then\n'
+            '    match step_plain raise_if o_cwd {| sp_root := o_root; sp_con := true; sp_route := hops; sp_site := s;\n'
+            '      sp_in := {| i_arg := arg; i_data := []; i_hpath := []; i_prefix := []; i_walked := [] |} |} with\n'
+            '    | Some a => [(kcode (st_callee s), a)] | None => [] end else []) raw_sites.\n'
+            'Definition chain_hop (m : string) (prefix : str) : list hop :=\n'
+            '  map (fun c => {| h_call := c; h_prefix := prefix |}) (filter (fun c => String.eqb (cc_method c) m) chain_calls).\n'
+            'Definition entry_hop (m : string) : list hop :=\n'
+            '  map (fun c => {| h_call := c; h_prefix := [] |})\n'
+            '      (filter (fun c => (String.eqb (cc_method c) m && negb (reads_handle (cc_arg c)))%bool) entry_points).\n')
     pre += ('Definition hstep (con : bool) (m b : string) (arg hpath data : str) : list opcall :=\n'
             '  map (fun s => {| oc_root := o_root; oc_con := con; oc_site := s; oc_in := {| i_arg := arg; i_data := data; '
             'i_hpath := hpath; i_prefix := []; i_walked := [] |} |})\n'
@@ -1021,10 +1499,76 @@ def corr_ops(ck: Ck) -> None:
                                  f'{coq_str(cases[k][5])}' for k in idx) + ']',
                  '[' + '; '.join(f'has_method "{m}" "{b}" raw_sites' for _, m, b in OPS_CASES) + ']']
         return coq_run(ck, f'ops{idx[0]}', exprs, preamble=pre)
+    echunks = [list(range(lo, min(lo + 150, len(ecases)))) for lo in range(0, len(ecases), 150)]
+
+    def ebatch(idx):
+        return coq_run(ck, f'entry{idx[0]}', ['[' + '; '.join(
+            f'epredict "{ecases[k][1]}" "{ecases[k][2]}" {coq_str(ecases[k][3])} {coq_str(ecases[k][4])} {coq_str(ecases[k][5])}'
+            for k in idx) + ']'], preamble=pre)
+    rchunks = [list(range(lo, min(lo + 150, len(rcases)))) for lo in range(0, len(rcases), 150)]
+
+    def rexpr(k):
+        op_, prefixes, arg = rcases[k]
+        if op_ == 'getitem':
+            hops = ' ++ '.join(['entry_hop "__getitem__"'] + [f'chain_hop "_get_file" {coq_str(p_)}' for p_ in prefixes])
+            return f'rstep "_get_file" ({hops}) {coq_str(arg)}'
+        hops = ' ++ '.join(f'chain_hop "walk_folder_repeat" {coq_str(p_)}' for p_ in prefixes)
+        return f'rstep "walk_folder" ({hops}) {coq_str(arg)}'
+
+    def rbatch(idx):
+        return coq_run(ck, f'route{idx[0]}', ['[' + '; '.join(rexpr(k) for k in idx) + ']'], preamble=pre)
     with ThreadPoolExecutor(max_workers=6) as ex:
         hist_futs = [ex.submit(hist_batch, lo) for lo in hist_los]
+        efuts = [ex.submit(ebatch, idx) for idx in echunks]
+        rfuts = [ex.submit(rbatch, idx) for idx in rchunks]
         outs = list(ex.map(batch, chunks))
         hist_outs = [f.result() for f in hist_futs]
+        eouts = [f.result() for f in efuts]
+        routs = [f.result() for f in rfuts]
+    rbad = []
+    rfailed = False
+    for idx, vals in zip(rchunks, routs):
+        if vals is None:
+            rfailed = True
+            continue
+        for k, pred in zip(idx, parse_coq_nested(vals[0])):
+            model = sorted({(int(c), ''.join(chr(x) for x in a)) for c, a in pred})
+            if model != robserved[k]:
+                rbad.append({'op': rcases[k][0], 'chain_prefixes_outermost_first': rcases[k][1], 'arg': rcases[k][2].replace(base, '{BASE}'),
+                             'observed': [[c, p.replace(base, '{BASE}')] for c, p in robserved[k]],
+                             'model': [[c, p.replace(base, '{BASE}')] for c, p in model]})
+    ck.obligation('correspondence:route_model', not rbad and not rfailed,
+                  f'{len(rcases)} lookups / walks through a FileSystemChain and a chain inside a chain (prefixes {rprefixes}) around '
+                  f'a constrained member: step_plain of SM/PathProperty.v over the route built from Gen entry_points and '
+                  f'chain_calls vs the accesses observed: {len(rbad)} disagreements'
+                  + ('; model could not be evaluated' if rfailed else '') + (f'; first: {rbad[0]}' if rbad else ''))
+    if rbad or rfailed:
+        ck.tie_broken.append('correspondence routes (SM/PathProperty.v step_plain vs observed OS accesses through nested chains)')
+        ck.extra['route_model_disagreements'] = rbad[:5]
+        DISAGREE.setdefault('route', set()).update(b_['op'] for b_ in rbad)
+    ebad = []
+    efailed = False
+    for idx, vals in zip(echunks, eouts):
+        if vals is None:
+            efailed = True
+            continue
+        for k, pred in zip(idx, parse_coq_nested(vals[0])):
+            model = sorted({(int(c), ''.join(chr(x) for x in a)) for c, a in pred})
+            if model != eobserved[k]:
+                ebad.append({'entry_point': ecases[k][1], 'branch': ecases[k][2], 'arg': ecases[k][3].replace(base, '{BASE}'),
+                             'handle_path': ecases[k][4].replace(base, '{BASE}'), 'handle_data': ecases[k][5].replace(base, '{BASE}'),
+                             'observed': [[c, p.replace(base, '{BASE}')] for c, p in eobserved[k]],
+                             'model': [[c, p.replace(base, '{BASE}')] for c, p in model]})
+    ck.obligation('correspondence:entry_points_model', not ebad and not efailed,
+                  f'{len(ecases)} calls of the inherited entry points (fs[x], x in fs, read_kv1, read_prop, iteration) and of '
+                  f'File.open_bin / open_str / cache_key: the accesses the model derives by following Gen/FsCensus_gen.v '
+                  f'entry_points down to the sites of Gen/FsOps_gen.v vs the accesses observed by the audit hook: '
+                  f'{len(ebad)} disagreements' + ('; model could not be evaluated' if efailed else '')
+                  + (f'; first: {ebad[0]}' if ebad else ''))
+    if ebad or efailed:
+        ck.tie_broken.append('correspondence entry points (Gen/FsCensus_gen.v entry_points + SM/PathProperty.v vs observed OS accesses)')
+        ck.extra['entry_point_model_disagreements'] = ebad[:5]
+        DISAGREE.setdefault('entry', set()).update(b_['entry_point'] for b_ in ebad)
     for idx, vals in zip(chunks, outs):
         if vals is None:
             ck.obligation('correspondence:operations_model', False, 'model could not be evaluated')
@@ -1141,6 +1685,28 @@ def _stage(ck: Ck, name: str, t0: float) -> float:
     return t1
 
 
+def guarded(ck: Ck, name: str, fn, *args):
+    """Run a stage that calls into the implementation; if the implementation fails there in a way the stage does not expect
+    (a fault may make constructors or helpers raise anything), the stage's obligation fails and the search is escalated —
+    the check itself does not fall over.  Inconclusive (a coqc timeout) is passed on."""
+    try:
+        # the implementation side of a correspondence takes seconds (quick) to a minute or two (thorough)
+        with time_limit(1800 if ck.thorough else 400):
+            return fn(ck, *args)
+    except Inconclusive:
+        raise
+    except _Hang:
+        ck.obligation(name, False, 'the implementation did not come back while the stage ran its cases (time limit of the stage)')
+        ck.tie_broken.append(f'{name}: the implementation hangs')
+        return None
+    except Exception as e:
+        import traceback
+        tb = traceback.extract_tb(e.__traceback__)[-1]
+        ck.obligation(name, False, f'the stage could not be completed: {type(e).__name__}: {e} (at {tb.filename.split("/")[-1]}:{tb.lineno})'[:600])
+        ck.tie_broken.append(f'{name}: {type(e).__name__} while running the implementation')
+        return None
+
+
 def run(ck: Ck) -> None:
     import time
     t = time.time()
@@ -1158,7 +1724,13 @@ def run(ck: Ck) -> None:
                'prefix, operation, path), non-trivial = the path contains "..", a backslash or is absolute and the '
                'operation reached the file system, or it was rejected with RootEscapeError; the history operation '
                'after_loose asks a new constrained object after an unconstrained one on the same folder performed every plain '
-               'operation with the name (quick: corpus + every second targeted spelling + random)')
+               'operation with the name (quick: corpus + every third targeted spelling + random); round 4: file systems made by '
+               'the package factories (get_filesystem, get_inst_locs), chains inside chains and chains with an unconstrained '
+               'member on another folder (its own accesses, observed on a chain holding only it, are exempt), the inherited entry '
+               'points read_kv1 / read_prop, names with drive letters, UNC / device prefixes, NUL bytes, components that do not '
+               'exist, names beyond NAME_MAX / PATH_MAX; entry-point cases (entry point, argument, handle strings) and route '
+               'cases (operation, chain prefixes outermost first, name) compared with the model, non-trivial = reached the OS '
+               'and carries ".." or a backslash; ten symbolic-link situations observed under the lexical reading')
     ck.trusted.append('hand-written model SM/PathNorm.v of posixpath.join/normpath/abspath/commonpath and of _resolve_path / '
                       'unify_path (tied by exhaustive correspondence on every run); Adler-32 block comparison')
     ck.trusted.append('CPython audit events (open, os.scandir, os.listdir, os.walk) and a wrapper around os.stat/os.lstat as '
@@ -1171,17 +1743,23 @@ def run(ck: Ck) -> None:
                           'with directory-entry names; entry names contain no separator and are not "", ".", ".."')
     ck.assumptions.append('File handles may carry any strings; fs.path / fs.constrain_path are not assigned from outside the class')
     ck.assumptions.append('POSIX path semantics (os.sep == "/", backslash is an ordinary character); containment is lexical '
-                          'on normalised absolute paths, symbolic links are outside the quantifier')
+                          'on normalised absolute paths (os.path.abspath): what a symbolic link inside the root points to '
+                          'counts as content of the root (c18_symlink_free_lexical_is_real / c18_symlink_inside_root_leaves_refuted)')
+    ck.trusted.append('translate/c18_census.py (package-wide censuses and the entry-point table; entry points and routes tied '
+                      'by correspondences, the censuses are syntactic)')
     ck.assumptions.append('the working directory is absolute (hypothesis is_abs cwd of the theorems); os.getcwd() always is')
     assert os.sep == '/'
     searched, ties_before = False, 0
     ok_t = ck.translate('Containment_gen', c18_guard.translate)
     ok_t = ck.translate('FsOps_gen', c18_ops.translate) and ok_t
+    ok_t = ck.translate('FsCensus_gen', c18_census.translate) and ok_t
     side = ck.extra.get('translated', {}).get('Containment_gen', {})
     RESOLVE_METHOD[0] = side.get('resolve_method', '_resolve_path')
+    t = _stage(ck, 'translate', t)
     built = ok_t and ck.build(['Props/C18.vo', 'SM/PathNormEnum.vo'])
+    t = _stage(ck, 'build', t)
+    th = None
     if built:
-        ck.theorems('Props/C18.v')
         res = ck.instance_obligations(IMPORTS, {
             'guard_is_a_sound_segmentwise_form': 'raise_sound raise_if',
             'root_is_stored_as_abspath': 'root_is_abspath',
@@ -1197,7 +1775,29 @@ def run(ck: Ck) -> None:
             'no_method_of_the_file_system_classes_is_wrapped': 'no_method_of_the_file_system_classes_is_wrapped',
             # no module / class level table, mutable default or method-object state readable by a second file-system object
             'file_system_methods_share_no_mutable_state': 'file_system_methods_share_no_mutable_state',
+            # round 4: the same questions asked of every module below src/srctools (Gen/FsCensus_gen.v)
+            'no_monkey_patch_of_the_file_system_classes_or_path_library_in_the_package': 'nilb foreign_patches',
+            'no_subclass_of_raw_file_system_redefines_a_method_in_the_package': 'nilb foreign_subclasses',
+            'neutral_decorators_are_the_library_ones': 'nilb decorator_origins',
+            'file_system_classes_have_no_mixin_metaclass_or_class_decorator': 'nilb unexpected_bases',
+            'no_cached_function_of_another_module_is_reached': 'nilb reachable_foreign_caches',
+            'file_system_objects_keep_no_table_or_outside_state': 'objects_keep_no_table_or_outside_state',
+            'entry_points_land_on_access_methods': 'entry_points_land_on_access_methods',
+            'package_factories_construct_constrained_systems': 'package_factories_construct_constrained_systems',
+            # the hypothesis of c18_property / c18_property_today for the record of all generated objects
+            'c18_property_hypotheses_hold_for_todays_source': 'c18_property_hypotheses_hold_today',
         })
+        cen_side = ck.extra.get('translated', {}).get('FsCensus_gen', {})
+        for w in cen_side.get('raw_file_system_constructions', []):
+            ck.hist('raw_file_system_construction', f'{w[0]}:{w[2].split(":")[0]}')
+            if w[2] != 'constrained':
+                ck.notes.append('package census constructions: ' + ' / '.join(w))
+        for k in ('foreign_patches', 'foreign_subclasses', 'decorator_origins', 'reachable_foreign_caches', 'per_object_state',
+                  'entry_unread', 'unexpected_bases'):
+            for w in cen_side.get(k, []):
+                ck.notes.append(f'package census {k}: ' + ' / '.join(w))
+        for c_, m_, mm_, p_ in cen_side.get('entry_points', []):
+            ck.hist('entry_point', f'{c_}.{m_}->{mm_}({p_})')
         for w in side.get('resolve_path_wrappers', []) + ck.extra.get('translated', {}).get('FsOps_gen', {}).get('method_wrappers', []):
             ck.notes.append('wrapper between callers and a method body: ' + ' / '.join(w))
         ops_side = ck.extra.get('translated', {}).get('FsOps_gen', {})
@@ -1210,30 +1810,41 @@ def run(ck: Ck) -> None:
             ck.extra['handles_store_the_validated_string(informational)'] = info[0]
             ck.extra['handle_consuming_sites'] = info[1]
         if not res['guard_is_a_sound_segmentwise_form']:
-            model_predicted_escapes(ck)
+            guarded(ck, 'model_predicted_escapes', model_predicted_escapes)
         if side.get('resolve_digest') not in PINNED_DIGESTS:
             # DESIGN 5.4: a changed hand-modelled function escalates the correspondence budget, it is not an alarm
             ck.notes.append('RawFileSystem._resolve_path differs from the texts the model was written against: '
                             'correspondence compares every function on every block (escalated budget)')
             ESCALATE.append(True)
-        t = _stage(ck, 'translate+build+obligations', t)
-        started = corr_exhaustive_start(ck)
+        t = _stage(ck, 'instance_obligations', t)
+        started = guarded(ck, 'correspondence:paths_exhaustive', corr_exhaustive_start)
         t = _stage(ck, 'corr_exhaustive_implementation_side', t)
+        # Print Assumptions of every theorem (one coqc process) runs next to the search as well; nothing else uses
+        # ck.coq_scratch until it is joined
+        th = threading.Thread(target=ck.theorems, args=('Props/C18.v',), daemon=True)
+        th.start()
         # the search on real trees runs in this thread while the coqc processes of the correspondence run
         ties_before = len(ck.tie_broken)
+        import_package_modules(ck)
         search_trees(ck)
         searched = True
+        observe_symlinks(ck)
         t = _stage(ck, 'search_trees(while coqc runs)', t)
-        corr_exhaustive_finish(ck, started)
+        th.join()
+        t = _stage(ck, 'theorems(Print Assumptions)_wait', t)
+        if started is not None:
+            corr_exhaustive_finish(ck, started)
         t = _stage(ck, 'corr_exhaustive_wait', t)
-        corr_random(ck)
+        guarded(ck, 'correspondence:paths_random', corr_random)
         t = _stage(ck, 'corr_random', t)
         check_casefold(ck)
         t = _stage(ck, 'casefold', t)
-        corr_ops(ck)
+        guarded(ck, 'correspondence:operations_model', corr_ops)
         t = _stage(ck, 'corr_ops', t)
     if not searched:
+        import_package_modules(ck)
         search_trees(ck)
+        observe_symlinks(ck)
         t = _stage(ck, 'search_trees', t)
     elif len(ck.tie_broken) > ties_before and not ck.thorough and not ck.violations:
         # a correspondence disagreed after the search had run with the small budget: search again with the escalated one
@@ -1251,16 +1862,32 @@ def run(ck: Ck) -> None:
         ck.explain('instance:resolve_path_is_called_unwrapped')
         ck.explain('instance:no_method_of_the_file_system_classes_is_wrapped')
         ck.explain('instance:file_system_methods_share_no_mutable_state')
+        for nm in ('no_monkey_patch_of_the_file_system_classes_or_path_library_in_the_package',
+                   'no_subclass_of_raw_file_system_redefines_a_method_in_the_package', 'neutral_decorators_are_the_library_ones',
+                   'file_system_classes_have_no_mixin_metaclass_or_class_decorator',
+                   'no_cached_function_of_another_module_is_reached', 'file_system_objects_keep_no_table_or_outside_state',
+                   'entry_points_land_on_access_methods', 'c18_property_hypotheses_hold_for_todays_source',
+                   'package_factories_construct_constrained_systems'):
+            ck.explain('instance:' + nm)
+        ck.explain('translate:FsCensus_gen')
         ck.explain('translate:FsOps_gen')
         ck.explain('instance:root_')
         ck.explain('instance:constrain_flag')
         ck.explain('translate:Containment_gen')
+    if any(k.startswith(('hang-', 'unexpected-exception-')) for k in keys):
+        # the statement the translators could not read is the one that hangs / raises: the failing input is in hand
+        ck.explain('translate:Containment_gen')
+        ck.explain('translate:FsOps_gen')
     # A model/implementation disagreement is explained only when every disagreeing function belongs to the part whose
     # concrete violation was exhibited (unify_path by an escaping pack path, _resolve_path by an observed escape).
     if DISAGREE.get('ops') and any(k.startswith(ESCAPE_KEYS) for k in keys):
         ck.explain('correspondence:operations_model')
     if DISAGREE.get('history') and any(k.startswith(ESCAPE_KEYS) for k in keys):
         ck.explain('correspondence:history_model')
+    if DISAGREE.get('route') and any(k.startswith(ESCAPE_KEYS) for k in keys):
+        ck.explain('correspondence:route_model')
+    if DISAGREE.get('entry') and any(k.startswith(ESCAPE_KEYS) for k in keys):
+        ck.explain('correspondence:entry_points_model')
     for stage, ob in (('exhaustive', 'correspondence:paths_exhaustive'), ('random', 'correspondence:paths_random')):
         fs = DISAGREE.get(stage, set())
         if fs and all(f == 'unify_path' and 'unify-path-escapes' in keys
@@ -1275,7 +1902,8 @@ def replay(data: dict) -> int:
         try:
             base = os.path.realpath(base_dir)
             build_tree(Path(base))
-            out = run_op(base, r['root'], r['chain_prefix'], r['op'], r['path'])
+            cp = tuple(r['chain_prefix']) if isinstance(r['chain_prefix'], list) else r['chain_prefix']
+            out = run_op(base, r['root'], cp, r['op'], r['path'])
             print('root          :', out['root'].replace(base, '{BASE}'))
             print('operation     :', r['op'], repr(r['path']), 'chain prefix', repr(r['chain_prefix']))
             print('outcome       :', out['outcome'])
@@ -1283,7 +1911,8 @@ def replay(data: dict) -> int:
             print('accesses      :', [(k, p.replace(base, '{BASE}')) for k, p in out['events']])
             print('outside root  :', [(k, p.replace(base, '{BASE}')) for k, p in out['escapes']])
             print('answered about:', [(a, p.replace(base, '{BASE}')) for a, p in out['answered_outside']])
-            bad = bool(out['escapes'] or out['leaked'] or out['answered_outside'])
+            print('unexpected    :', out['unexpected'])
+            bad = bool(out['escapes'] or out['leaked'] or out['answered_outside'] or out['unexpected'])
             print('VIOLATION reproduced' if bad else 'no escape on this tree')
             return 1 if bad else 0
         finally:
